@@ -33,6 +33,10 @@ def jobs(tier):
                          symbolic=["errno", "arguments of the refused calls (flags, sizes, periods)"],
                          bounds="every public module/pub-sub/source call once from the foreign thread", unwind=13,
                          unwindset={"vf_same.0": 80, "memcpy.0": 700}))
+    js.append(l2_job("C14.confine.otherctx.samename", "l2/c14_confine.c", defines={"FOREIGN_CTX": 1, "SAMENAME": None},
+                     symbolic=["errno", "arguments of the refused calls (flags, sizes, periods)"],
+                     bounds="as otherctx, the foreign module carries the same name as the target", unwind=13,
+                     unwindset={"vf_same.0": 80, "memcpy.0": 700}))
     js.append(l2_job("C14.keyrace", "l2/c14_keyrace.c", symbolic=[],
                      bounds="2 threads registering the first two contexts, one pre-emption point (pthread_key_create)", unwind=13))
     return js
